@@ -34,6 +34,12 @@ func main() {
 			modes = os.Args[5:]
 		}
 		err = runL1(seed, n, dir, modes)
+	case "l2":
+		prof := "single"
+		if len(os.Args) > 5 {
+			prof = os.Args[5]
+		}
+		err = runL2(seed, n, dir, prof)
 	default:
 		err = fmt.Errorf("unknown level %s", os.Args[1])
 	}
